@@ -29,7 +29,8 @@ ASSUMPTIONS = ['momentum and weight decay off so that updates expose the '
                'bound above 1e-3 of the result)']
 EXPECTED_PROBES = ['replicated_worlds', 'scale_spread_ge_1e6', 'onehot_block', 'ragged_block',
                    'two_blocked_axes', 'companion_checked', 'solo_block_checked',
-                   'small_parameter_with_larger_companion']
+                   'small_parameter_with_larger_companion',
+                   'unblocked_axis_in_blocked_tensor']
 
 
 def generate(seed, idx, tier):
@@ -89,8 +90,16 @@ def generate(seed, idx, tier):
     # (tearfree shampoo rejects tensors with more than two large dims)
     companions = [(c + [rng.randrange(2, 9)])[:2] if len(c) != 2 else c
                   for c in companions]
-  return {'system': sysm, 'class': f"{sysm}_{'2ax' if two else '1ax'}",
-          'x64': True, 'config': cfg, 'shape': [d0, d1], 'block': b,
+  shape = [d0, d1]
+  extra = None
+  if not small and b >= 3 and rng.random() < 0.35:
+    # a small unblocked axis before, between or after the blocked ones (an
+    # attention projection [model, heads, head_dim] has one in the middle)
+    extra = rng.randrange(0, 3)
+    shape.insert(extra, rng.randrange(2, min(b, 5)))
+  return {'system': sysm,
+          'class': f"{sysm}_{'2ax' if two else '1ax'}{'_r3' if extra is not None else ''}",
+          'x64': True, 'config': cfg, 'shape': shape, 'block': b,
           'spread': spread, 'scale_seed': rng.randrange(1 << 30),
           'companions': companions,
           'companion_scale': 10.0 ** rng.randrange(-4, 5),
@@ -112,9 +121,11 @@ def run(plan):
   from sim.worlds import make_world
   ctx = Ctx(plan, 'C08')
   sysm = plan['system']
-  d0, d1 = plan['shape']
+  tshape = [int(x) for x in plan['shape']]
   b = plan['block']
-  grid = shp.block_grid([d0, d1], b)
+  grid = shp.block_grid(tshape, b)
+  if len(tshape) > 2:
+    ctx.probe('unblocked_axis_in_blocked_tensor')
   nblk = len(grid)
   fdt = np.float64 if sysm == 'tearfree' else np.float32
   rs = np.random.Generator(np.random.PCG64(int(plan['scale_seed'])))
@@ -127,10 +138,10 @@ def run(plan):
   if plan.get('two'):
     ctx.probe('two_blocked_axes')
   comp = [tuple(s) for s in plan['companions']]
-  pa = dict(plan, tree=[[d0, d1]])
+  pa = dict(plan, tree=[list(tshape)])
   pb = dict(plan, tree=[list(bs) for _, bs in grid])
   ai = min(int(plan.get('a_index', 0)), len(comp))
-  pc = dict(plan, tree=[list(s) for s in comp[:ai]] + [[d0, d1]] +
+  pc = dict(plan, tree=[list(s) for s in comp[:ai]] + [list(tshape)] +
             [list(s) for s in comp[ai:]])
   reps = int(plan.get('replicas', 1))
   for p_ in (pa, pb, pc):
@@ -144,7 +155,7 @@ def run(plan):
              mode='vmap' if reps > 1 else 'jit', D=reps)
   B1 = make_world(pb1)
   prng = np.random.Generator(np.random.PCG64(int(plan['param_seed'])))
-  theta = np.asarray(prng.standard_normal((d0, d1)) * 0.5, fdt)
+  theta = np.asarray(prng.standard_normal(tuple(tshape)) * 0.5, fdt)
   theta_c = [np.asarray(prng.standard_normal(s) * 0.5, fdt) for s in comp]
   par_a = [theta]
   par_b = [np.ascontiguousarray(theta[sl]) for sl, _ in grid]
@@ -162,7 +173,7 @@ def run(plan):
     ctx.op_index = t
     ctx.saw_op('STEP')
     rng = np.random.Generator(np.random.PCG64(int(op['gseed'])))
-    g = rng.standard_normal((d0, d1))
+    g = rng.standard_normal(tuple(tshape))
     hot = op['hot'] % nblk
     for k, (sl, _) in enumerate(grid):
       s = scales[k]
